@@ -81,6 +81,23 @@ add("k_validate_machine", MB, "machine::verif_kani", ["C12"], cap_s=300, group="
            "that may reject any one state (the state judgement has its own kernels)")
 
 
+for k, tier in ((1, "quick"), (2, "quick")):
+    add("k_validate_row_k%d" % k, MB, "state::verif_kani", ["C12"], tier=tier, cap_s=900, mem_gb=16, group="c12_row_k%d" % k,
+        encodes=["State::validate (row judgement)"],
+        bounds="one row of K=%d alternatives: targets any usize (pairwise distinct by assumption), probabilities any f32 bit "
+               "pattern, 1..=STATE_MAX states; HashSet::insert stubbed to a no-op, RandomState::new to fixed keys" % k)
+add("k_validate_state_dists", MB, "state::verif_kani", ["C12"], cap_s=600, mem_gb=12, group="c12_state_dists", cls="B",
+    encodes=["State::validate", "Action::validate", "Counter::validate"],
+    bounds="any action kind with / without limit, both counters with / without distribution; Dist::validate replaced by a "
+           "ghost that may reject any one distribution")
+for fam, tier, cap in (("uniform", "quick", 300), ("normal", "quick", 300), ("lognormal", "quick", 300),
+                       ("skewnormal", "quick", 300), ("binomial", "quick", 300), ("geometric", "thorough", 900),
+                       ("pareto", "quick", 300), ("weibull", "quick", 300), ("poisson", "thorough", 900),
+                       ("gamma", "thorough", 900), ("beta", "thorough", 900)):
+    add("k_dist_validate_" + fam, MB, "dist::verif_kani", ["C12"], tier=tier, cap_s=cap, mem_gb=12,
+        group="c12_dist_" + fam, encodes=["Dist::validate (%s)" % fam, "rand_distr constructor"],
+        bounds="parameters any f64 bit pattern (trials any u64); start/max any f64")
+
 # ---------------------------------------------------------------- framework L0 limit predicates
 FW = "framework::verif_kani"
 add("k_below_padding", MB, FW, [], cap_s=300, group="fw_l0_pad", owner="C01",
@@ -160,6 +177,20 @@ add("s_peek_internal", SIM, SK, ["C18"], tier="thorough", cap_s=900, mem_gb=12, 
     encodes=["queue_peek::peek_scheduled_internal_timer"], bounds="2 + 1 internal-timer slots, any instants")
 add("s_peek_blocked", SIM, SK, ["C16"], cap_s=300, mem_gb=12, group="s_peek", owner="C19",
     encodes=["queue_peek::peek_blocked_exp"], bounds="both sides' blocking expiry arbitrary (at or after now)")
+
+
+add("s_stack_send_recv", SIM, SK, ["C14", "C15"], cap_s=600, mem_gb=16, group="s_stack_sr", owner="C19",
+    encodes=["network::sim_network_stack (NormalSent / TunnelSent / TunnelRecv)", "NetworkBottleneck::sample", "WindowCount::add", "SimQueue::push_sim"],
+    bounds="one event of the three kinds, any side, any padding flag, empty queue, any network delay up to 10 s, no machines, "
+           "no integration delays, fresh rate window")
+add("s_stack_padding_sent", SIM, SK, ["C15", "C16"], cap_s=900, mem_gb=16, group="s_stack_pad", owner="C19",
+    encodes=["network::sim_network_stack (PaddingSent)", "SimQueue::peek_blocking / pop_blocking", "delay::agg_delay_on_padding_bypass_replace"],
+    bounds="one PaddingSent with any bypass/replace flags, zero or one normal packet queued on that side, any blocking state")
+add("s_bottleneck_new", SIM, SK, ["C19"], cap_s=300, mem_gb=12, group="s_bottleneck_new",
+    encodes=["NetworkBottleneck::new", "WindowCount::new"], bounds="every packets-per-second limit >= 1 (network and trace-derived)")
+add("s_pick_next_two", SIM, SK, ["C14", "C15", "C19"], cap_s=1200, mem_gb=16, group="s_pick_next_two", owner="C19",
+    encodes=["pick_next", "queue_peek::peek_queue", "SimQueue::peek / pop", "peek_scheduled_* (empty)"],
+    bounds="two queued NormalSent packets (one per side) at any two instants up to 1000 s after now, no machines, no blocking")
 
 
 def jobs_for(prop, tier):
